@@ -555,7 +555,7 @@ def run(chk):
         for rankmode in ("none", "rev", "fwd"):
             for ncpu in (2, 3):
                 for appmode in ("same", "distinct"):
-                    if chk.tier == "quick" and (ncpu == 3 and rankmode == "fwd"):
+                    if chk.tier == "quick" and rankmode == "fwd" and (ncpu == 3 or appmode == "distinct"):
                         continue
                     bases.append(base_valid(skel, rankmode, ncpu, appmode))
     for bi, base in enumerate(bases):
@@ -574,9 +574,9 @@ def run(chk):
             for nm in nms:
                 cases.append({"kind": "valid", "label": "valid", "streams": m, "naming": nm})
         # ---- every single contradiction, on the base and on one redistributed variant
-        for m0 in (base, variants[-1]):
+        for m0 in ((base, variants[-1]) if chk.tier == "thorough" else (base,) if bi % 2 else (variants[-1],)):
             for (lab, m) in contradictions_of(m0):
-                for nm in namings(len(m), r, 2)[1:]:
+                for nm in (namings(len(m), r, 2)[1:] if chk.tier == "thorough" else [r.choice(namings(len(m), r, 3)[1:])]):
                     cases.append({"kind": "contradiction", "label": lab, "streams": m, "naming": nm})
             for (lab, m) in illformed_of(m0):
                 cases.append({"kind": "illformed", "label": lab, "streams": m, "naming": namings(len(m), r, 1)[1]})
